@@ -14,6 +14,44 @@ pub assume_specification[ i16::is_negative ](x: i16) -> (r: bool)
         r == (x < 0),
 ;
 
+// integer helpers of core that vstd does not specify (stated from the std documentation)
+pub assume_specification[ i16::saturating_neg ](x: i16) -> (r: i16)
+    ensures
+        r == (if x == i16::MIN { i16::MAX } else { (-x) as i16 }),
+;
+
+pub assume_specification[ i16::wrapping_neg ](x: i16) -> (r: i16)
+    ensures
+        r == (if x == i16::MIN { i16::MIN } else { (-x) as i16 }),
+;
+
+pub assume_specification[ i16::saturating_sub ](x: i16, y: i16) -> (r: i16)
+    ensures
+        r == (if x - y > i16::MAX { i16::MAX } else if x - y < i16::MIN { i16::MIN } else { (x - y) as i16 }),
+;
+
+pub assume_specification[ i16::saturating_add ](x: i16, y: i16) -> (r: i16)
+    ensures
+        r == (if x + y > i16::MAX { i16::MAX } else if x + y < i16::MIN { i16::MIN } else { (x + y) as i16 }),
+;
+
+pub assume_specification[ i16::abs ](x: i16) -> (r: i16)
+    requires
+        x != i16::MIN,
+    ensures
+        r == (if x < 0 { (-x) as i16 } else { x }),
+;
+
+pub assume_specification[ i16::is_positive ](x: i16) -> (r: bool)
+    ensures
+        r == (x > 0),
+;
+
+pub assume_specification[ i16::checked_neg ](x: i16) -> (r: Option<i16>)
+    ensures
+        r == (if x == i16::MIN { None::<i16> } else { Some((-x) as i16) }),
+;
+
 /// `NonZeroUsize` is a plain wrapper around its value (extensionality).
 #[verifier::external_body]
 pub proof fn axiom_nonzero_ext(a: NonZeroUsize, b: NonZeroUsize)
